@@ -16,7 +16,8 @@ const LEVELS: [log::Level; 5] = [log::Level::Error, log::Level::Warn, log::Level
 /// `console-child <stdout|stderr> <tty_only>`: one appender, one record per level
 pub fn child(args: &[String]) {
     let target = if args[0] == "stderr" { log4rs::append::console::Target::Stderr } else { log4rs::append::console::Target::Stdout };
-    let pattern = "<{h({l} {h({t})})}|{m}>{n}";
+    // two highlight groups whose content exactly fills / overflows their maximum width: the reset still follows
+    let pattern = "<{h({l}):.3}{h({t}):2.2}|{m}>{n}";
     let a: Box<dyn Append> = if args.get(2).map(|s| s == "config").unwrap_or(false) {
         // from a configuration value; keys whose documented default is wanted are left out
         let mut doc = json!({"encoder": {"pattern": pattern}});
@@ -92,7 +93,7 @@ fn drain(e: End) -> Vec<u8> {
 }
 
 fn plain_line(l: log::Level) -> String {
-    format!("<{} tg|payload>\n", l)
+    format!("<{}tg|payload>\n", &l.to_string()[..3])
 }
 
 /// strips well-formed SGR sequences; returns (text, sequences) or Err on a malformed escape
@@ -205,7 +206,10 @@ fn check_row(case: &Value, exe: &str, idx: usize) -> Option<Value> {
                 return Some(json!({"what": "colour enabled but the highlight groups are not styled", "sequences": seqs}));
             }
             for line in on_target.lines().filter(|l| l.contains('\u{1b}')) {
-                if !line.contains("\u{1b}[0m|payload") {
+                // style, reset, style, reset - each group is closed before the next text
+                let per_line = strip_sgr(line).map(|x| x.1).unwrap_or_default();
+                let shape_ok = per_line.len() == 4 && per_line[1] == "\u{1b}[0m" && per_line[3] == "\u{1b}[0m" && per_line[0] != "\u{1b}[0m" && per_line[2] != "\u{1b}[0m";
+                if !shape_ok || !line.contains("\u{1b}[0m|payload") {
                     return Some(json!({"what": "highlighted group is not followed by a reset", "line": line}));
                 }
             }
